@@ -4,6 +4,7 @@ Every generator takes a random.Random; nothing here calls pamqp."""
 import datetime
 import decimal
 import itertools
+import math
 import struct
 import time
 
@@ -141,10 +142,20 @@ REAL_KEYS = ['x-message-ttl', 'x-expires', 'x-max-length',
              'exchange', 'routing-keys', 'x', 'X-ttl', 'x_ttl', 'ax-', 'x-']
 
 
+# keys that mean something to str.format / % / string.Template / re / logging
+# when a key ends up inside a message template
+TEMPLATE_KEYS = ['{}', '{0}', '{1}', '{name}', '{!r}', '{:>10}', '{{', '}',
+                 'x-{}', '%s', '%d', '%(key)s', '%', '100%', '$x', '${x}',
+                 '\\', '\\N', '[', '(', '*', 'a.b', 'a[0]', '{0.__class__}']
+
+
 def rkey(rnd):
     """Table key: <=128 characters and <=255 UTF-8 bytes."""
-    if rnd.random() < 0.12:
+    k = rnd.random()
+    if k < 0.12:
         return rnd.choice(REAL_KEYS)
+    if k < 0.15:
+        return rnd.choice(TEMPLATE_KEYS)
     k = rnd.random()
     if k < 0.08:
         return ''
@@ -159,13 +170,26 @@ def rkey(rnd):
     return s[:128]
 
 
+# around the largest single: FLT_MAX = 2^128 - 2^104 is exact; doubles up to
+# (not including) 2^128 - 2^103 still round to it, from there on packing as a
+# single overflows
+_FLT_MAX = 3.4028234663852886e38
+_FLT_TIE = 3.4028235677973366e38                 # 2^128 - 2^103
+BEYOND_SINGLE = [1e39, -1e39, 3.5e38, 1e300, -1e300, 1.7976931348623157e308,
+                 _FLT_TIE, -_FLT_TIE, 3.4028235e38, -3.4028235e38,
+                 math.nextafter(_FLT_MAX, math.inf),
+                 -math.nextafter(_FLT_MAX, math.inf),
+                 math.nextafter(_FLT_TIE, 0.0), -math.nextafter(_FLT_TIE, 0.0),
+                 math.nextafter(_FLT_TIE, math.inf), 2.0 ** 128,
+                 math.nextafter(2.0 ** 128, 0.0), -2.0 ** 128]
+
+
 def rfloat(rnd):
     """Any float: single-precision range (rounded on the wire), +-inf, nan,
     and finite doubles beyond the single-precision range."""
     k = rnd.random()
     if k < 0.06:
-        return rnd.choice([1e39, -1e39, 3.5e38, 1e300, -1e300,
-                           1.7976931348623157e308, 3.4028235677973366e38])
+        return rnd.choice(BEYOND_SINGLE)
     if k < 0.25:
         return rnd.choice([0.0, -0.0, 1.0, -1.0, 0.1, 1e-45, -1e-45,
                            1.401298464324817e-45, 1.1754943508222875e-38,
